@@ -96,6 +96,7 @@ Definition trans (c : code) (t : table) (fresh : I) (s : state) : option (list s
   if length c <=? p then None else
   match at_ c p with
   | ICache | IExtArg | INop => next st
+  | IResume => both (next st) exc
   | ILoadConst _ => next (VO :: st)
   | IPop => match st with _ :: r => next r | [] => None end
   | ISwap n => match swap_top n st with Some st' => next st' | None => None end
@@ -186,8 +187,12 @@ Definition obs (c : code) (s : state) : list observation :=
       | _ => []
       end
   | ISend _ => [(true, S p, st, tr)]      (* 3.12: lasti rests on SEND's inline cache *)
+  | IGetAwaitable _ =>                    (* __await__ of an ordinary awaitable; the awaitables
+                                             returned by __aenter__/__aexit__ are assumed to be
+                                             coroutine objects, for which no Python code runs here *)
+      match st with VO :: _ => [(true, p, st, tr)] | _ => [] end
   | IBeforeWith _                         (* inside __enter__/__aenter__: not yet listed *)
-  | IGetAwaitable _ | IForIter _ | ICondJump _ true | IGen _ _ true | IJump JBack _ => [(true, p, st, tr)]
+  | IForIter _ | ICondJump _ true | IGen _ _ true => [(true, p, st, tr)]
   | _ => []
   end.
 
